@@ -62,9 +62,9 @@ def step (s : St) (ts : List String) : St × List String :=
       let v' := { v with label := nat! label }
       ({ s with vrfs := (nat! id, v') :: s.vrfs.filter (·.1 != nat! id) }, ["ok"])
     | none => (s, ["err"])
-  | "path" :: uid :: src :: pid :: rd :: pfx :: label :: pref :: marker :: rest =>
+  | "path" :: uid :: root :: src :: pid :: rd :: pfx :: label :: pref :: marker :: rest =>
     let (ecs, _) := takeList rest
-    let p : VPath := { uid := nat! uid, src := nat! src, pathId := nat! pid, rd := nat! rd, pfx := nat! pfx,
+    let p : VPath := { uid := nat! uid, root := nat! root, src := nat! src, pathId := nat! pid, rd := nat! rd, pfx := nat! pfx,
                        label := nat! label, pref := nat! pref, marker := nat! marker, ecs := ecs }
     ({ s with paths := p :: s.paths.filter (·.uid != p.uid) }, [])
   | ["canimp", v, uid] =>
@@ -79,7 +79,7 @@ def step (s : St) (ts : List String) : St × List String :=
     let (ecs, _) := takeList rest
     match findVrf s v with
     | some vr =>
-      let g := toGlobal vr { uid := 0, src := 0, pathId := 0, pfx := nat! pfx, pref := 0, marker := nat! marker, ecs := ecs }
+      let g := toGlobal vr { uid := 0, root := 0, src := 0, pathId := 0, pfx := nat! pfx, pref := 0, marker := nat! marker, ecs := ecs }
       (s, [s!"{g.rd} {g.pfx} {g.label} {g.marker} {showNats g.ecs}"])
     | none => (s, ["bad-op"])
   | ["upd", uid, wd] =>
@@ -89,12 +89,12 @@ def step (s : St) (ts : List String) : St × List String :=
       let t' := s.tbl.update p (b! wd)
       ({ s with tbl := t', lastOld := oldL, lastNew := t'.dest p.nlri }, [])
     | none => (s, ["bad-op"])
-  | ["dest", rd, pfx] => (s, [showNats ((s.tbl.dest (nat! rd, nat! pfx)).map (·.uid))])
-  | ["idx", k] => (s, [showNats (sortBy id ((s.tbl.idx.byRT (nat! k)).map (·.uid)))])
+  | ["dest", rd, pfx] => (s, [showNats ((s.tbl.dest (nat! rd, nat! pfx)).map (·.marker))])
+  | ["idx", k] => (s, [showNats (sortBy id ((s.tbl.idx.byRT (nat! k)).map (·.marker)))])
   | ["idxsize"] => (s, [toString s.tbl.idx.length])
   | ["sel", v, rd, pfx] =>
     match findVrf s v with
-    | some vr => (s, [showNats ((vrfSelect vr (s.tbl.dest (nat! rd, nat! pfx))).map (·.uid))])
+    | some vr => (s, [showNats ((vrfSelect vr (s.tbl.dest (nat! rd, nat! pfx))).map (·.marker))])
     | none => (s, ["bad-op"])
   | ["mem", peer, rt, as, pid, wd] =>
     let r := rtmOf s (nat! peer)
